@@ -29,7 +29,7 @@ pub fn trees(seed: u64) -> Vec<Level> {
     let d2s = vec![fam::leaf(vec![fam::named(6, Kind::ArgOpt, 0, seed)], Tail::None), fam::leaf(vec![fam::named(6, Kind::ArgOpt, 2, seed)], fam::pos(&[PosKind::Many]))];
     let mut d1_tails = vec![Tail::None, fam::pos(&[PosKind::Opt]), fam::pos(&[PosKind::Req])];
     for d2 in &d2s {
-        for w in [CmdWrap::Required, CmdWrap::Optional] {
+        for w in [CmdWrap::Required, CmdWrap::Optional, CmdWrap::PureFirst] {
             d1_tails.push(Tail::Cmds { cmds: vec![cmd("deep", vec![], vec![], d2.clone())], wrap: w });
         }
     }
@@ -39,7 +39,7 @@ pub fn trees(seed: u64) -> Vec<Level> {
     let mut j = 0usize;
     for tn in &top_named {
         for siblings in [1, 2] {
-            for wrap in [CmdWrap::Required, CmdWrap::Optional, CmdWrap::Fallback] {
+            for wrap in [CmdWrap::Required, CmdWrap::Optional, CmdWrap::Fallback, CmdWrap::PureAlt, CmdWrap::PureFirst] {
                 for n1 in &d1_named {
                     for t1 in &d1_tails {
                         j += 1;
@@ -160,11 +160,43 @@ pub fn sentences(root: &Level) -> Vec<Vec<Tok>> {
 fn check_help(root: &Level, unit: &Value, p: &bpaf::OptionParser<Val>, ctx: &mut Ctx) {
     #[allow(clippy::too_many_arguments)]
     fn go(root_unit: &Value, l: &Level, path: &mut Vec<String>, prefix: &mut Vec<Tok>, p: &bpaf::OptionParser<Val>, all: &Vec<(String, usize)>, depth_id: usize, ctx: &mut Ctx, counter: &mut usize) {
-        let my_id = depth_id;
         // the line so far: every enclosing level's required items, written before the next
-        // command name (C08 quantifies over such lines; incomplete lines are C10's business)
-        let mut argv: Vec<Tok> = prefix.clone();
-        argv.push(Tok::s("--help"));
+        // command name; and the bare path (enclosing levels incomplete): help requested after
+        // the name describes the sub-command either way
+        let bare: Vec<Tok> = path.iter().map(|n| Tok::s(n)).collect();
+        let mut lines = vec![];
+        for h in ["--help", "-h"] {
+            let mut a = prefix.clone();
+            a.push(Tok::s(h));
+            lines.push(a);
+            if bare != *prefix {
+                let mut b = bare.clone();
+                b.push(Tok::s(h));
+                lines.push(b);
+            }
+        }
+        for argv in lines {
+            one(root_unit, path, argv, p, all, depth_id, ctx);
+        }
+        if let Tail::Cmds { cmds, .. } = &l.tail {
+            for c in cmds {
+                *counter += 1;
+                let id = *counter;
+                path.push(c.name.clone());
+                let keep = prefix.len();
+                for (n, b) in l.named.iter().zip(level_blocks(l)) {
+                    if n.kind.required() {
+                        prefix.extend(b);
+                    }
+                }
+                prefix.push(Tok::s(&c.name));
+                go(root_unit, &c.level, path, prefix, p, all, id, ctx, counter);
+                prefix.truncate(keep);
+                path.pop();
+            }
+        }
+    }
+    fn one(root_unit: &Value, path: &Vec<String>, argv: Vec<Tok>, p: &bpaf::OptionParser<Val>, all: &Vec<(String, usize)>, my_id: usize, ctx: &mut Ctx) {
         ctx.s.evaluations += 1;
         let r = run(p, &argv);
         let mut problem: Option<String> = None;
@@ -199,23 +231,6 @@ fn check_help(root: &Level, unit: &Value, p: &bpaf::OptionParser<Val>, ctx: &mut
                 sig.insert("depth".to_string(), path.len().to_string());
                 sig.insert("observed".to_string(), r.class().to_string());
                 ctx.violation(Violation { property: "C08".into(), rule: "help-after-name-describes-the-subcommand".into(), sig, unit: root_unit.clone(), case: json!({"argv": argv, "help": true}), expected: format!("stdout help of level {:?}", path), observed: format!("{}: {}", pr, r.brief()), size: argv.len() * 1000 });
-            }
-        }
-        if let Tail::Cmds { cmds, .. } = &l.tail {
-            for c in cmds {
-                *counter += 1;
-                let id = *counter;
-                path.push(c.name.clone());
-                let keep = prefix.len();
-                for (n, b) in l.named.iter().zip(level_blocks(l)) {
-                    if n.kind.required() {
-                        prefix.extend(b);
-                    }
-                }
-                prefix.push(Tok::s(&c.name));
-                go(root_unit, &c.level, path, prefix, p, all, id, ctx, counter);
-                prefix.truncate(keep);
-                path.pop();
             }
         }
     }
@@ -302,7 +317,7 @@ impl Check for C08 {
         }
     }
     fn rule(&self) -> String {
-        "definitions = command trees of depth <=3: top level {0,1,2 named items} x {1,2 sibling commands, either order} x {required, optional, fallback choice} x second level {0,1 named item} x {no tail, optional / required positional, required / optional third-level command with 2 leaf variants}, long and short command aliases on every third tree; inputs = every vector of the token tree (full alphabet: all names, aliases, inline forms, clusters, words, `--`, unknown names) plus, per command path and alias, the canonical sentence and EVERY misplacement of each deeper-level block to each position left of its command name, unknown / duplicated / displaced command names; all judged by the level-aware reference scanner; plus `path --help` for every path: usage line starts with the path, names mentioned are exactly that level's".into()
+        "definitions = command trees of depth <=3: top level {0,1,2 named items} x {1,2 sibling commands, either order} x {required, optional, fallback, default as last alternative, default as first alternative} x second level {0,1 named item} x {no tail, optional / required positional, required / optional / default-first third-level command with 2 leaf variants}, long and short command aliases on every third tree; inputs = every vector of the token tree (full alphabet: all names, aliases, inline forms, clusters, words, `--`, unknown names) plus, per command path and alias, the canonical sentence and EVERY misplacement of each deeper-level block to each position left of its command name, unknown / duplicated / displaced command names; all judged by the level-aware reference scanner; plus `path --help` for every path: usage line starts with the path, names mentioned are exactly that level's".into()
     }
     fn bounds(&self, tier: Tier) -> Value {
         json!({"depth": 3, "siblings": 2, "tree_vector_length": tier.pick(3, 4), "sentence_length": "up to 9 tokens with one displaced block"})
